@@ -1,1 +1,141 @@
-let run_case (_ : string) : string = "?"
+(* C07 L1 model driver: "X traits | op | op ..." scripts on the extracted IndexModel / MultiHash
+   (same syntax and same output as harness_idx.cpp).  The hash traits only matter to the real code. *)
+open Zutil
+open Datatypes
+open IndexModel
+
+module L = Stdlib.List
+let nat = nat_of_int
+let ofnat = int_of_nat
+let zi = int_of_z
+
+let str_digest (s : string) : int =
+  let h = ref 7 in
+  Stdlib.String.iter (fun ch -> h := (!h * 131 + Char.code ch) mod 1000003) s; !h
+
+let ord (t : nat) : nat = nat ((ofnat t) * 5 + 1)
+
+type bed = { mutable st : istate; content : (int, int array) Hashtbl.t; mutable live : int list }
+
+let ct_of (b : bed) : BinNums.coq_Z -> BinNums.coq_Z list = fun z ->
+  let a = try Hashtbl.find b.content (zi z) with Not_found -> [| 0; 0; 0 |] in
+  L.map z_of_int (Array.to_list a)
+
+let key_content b cols i =
+  let a = try Hashtbl.find b.content i with Not_found -> [| 0; 0; 0 |] in
+  L.map (fun c -> a.(ofnat c)) cols
+
+let dump (b : bed) : string =
+  let buf = Buffer.create 256 in
+  L.iteri (fun j u ->
+    let ids = L.sort compare (L.map (fun e -> zi (snd e)) u.uents) in
+    Buffer.add_string buf (Printf.sprintf "U%d[%s]" j (Stdlib.String.concat " " (L.map string_of_int ids)))) b.st.uhs;
+  L.iteri (fun j m ->
+    let groups = L.map (fun g ->
+      let key = zi g.gkey in
+      (key_content b m.mcols key, Printf.sprintf "%d:%s" key (Stdlib.String.concat " " (L.map (fun v -> string_of_int (zi v)) g.gvals)))) m.mgroups in
+    let groups = L.sort compare groups in
+    Buffer.add_string buf (Printf.sprintf "M%d[%s]" j (Stdlib.String.concat "|" (L.map snd groups)))) b.st.mhs;
+  Buffer.contents buf
+
+let show_outcome = function
+  | Accepted -> "ok"
+  | Refused (r, j) -> Printf.sprintf "conflict %d %d" (zi r) (ofnat j)
+  | Thrown -> "exn"
+
+(* an operation under fault injection: the model fails at every fallible step in turn (threading the
+   rolled-back states) before the run without failure *)
+let with_faults (inject : bool) (b : bed) (run : nat option -> istate -> istate * outcome) : outcome =
+  if inject then begin
+    let s = ref 0 in
+    let go = ref true in
+    while !go do
+      let (st', o) = run (Some (nat !s)) b.st in
+      (match o with Thrown -> b.st <- st'; incr s | _ -> go := false);
+      if !s > 64 then go := false
+    done
+  end;
+  let (st', o) = run None b.st in
+  b.st <- st'; o
+
+let run_op (b : bed) (text : string) : string =
+  let ws = words text in
+  let ct = ct_of b in
+  let mut s = Printf.sprintf "%s #%d" s (str_digest (dump b)) in
+  let ints l = L.map int_of_string l in
+  match ws with
+  | "NU" :: cols ->
+    let cs = L.map nat (L.sort compare (ints cols)) in
+    let raws = L.map z_of_int (L.sort compare b.live) in
+    let (st', r) = add_unique_index ord ct b.st cs raws in
+    b.st <- st';
+    mut (match r with None -> "ok" | Some r -> Printf.sprintf "dup %d" (zi r))
+  | "NM" :: cols ->
+    let cs = L.map nat (L.sort compare (ints cols)) in
+    let raws = L.map z_of_int (L.sort compare b.live) in
+    b.st <- add_multi_index ord ct b.st cs raws; mut "ok"
+  | ["W"; i; a; c; d] -> Hashtbl.replace b.content (int_of_string i) [| int_of_string a; int_of_string c; int_of_string d |]; "ok"
+  | ["ADD"; f; i] ->
+    let i = int_of_string i in
+    if L.mem i b.live then mut "invalid" else begin
+      let o = with_faults (f <> "0") b (fun fl st -> add_raw ord ct fl st (z_of_int i)) in
+      (match o with Accepted -> b.live <- i :: b.live | _ -> ());
+      mut (show_outcome o) end
+  | ["REM"; f; i] ->
+    let i = int_of_string i in
+    if not (L.mem i b.live) then mut "invalid" else begin
+      ignore f;
+      let (st', _) = remove_raw true true ct None b.st (z_of_int i) in
+      b.st <- st'; b.live <- L.filter (fun x -> x <> i) b.live; mut "ok" end
+  | ["UPD"; f; i; j] ->
+    let i = int_of_string i and j = int_of_string j in
+    if not (L.mem i b.live) || L.mem j b.live || i = j then mut "invalid" else begin
+      let o = with_faults (f <> "0") b (fun fl st -> update_raw true true ord ct fl st (z_of_int i) (z_of_int j)) in
+      (match o with Accepted -> b.live <- j :: L.filter (fun x -> x <> i) b.live | _ -> ());
+      mut (show_outcome o) end
+  | ["UPC"; f; i; c; v; t] ->
+    let i = int_of_string i and c = int_of_string c and v = int_of_string v in
+    if not (L.mem i b.live) then mut "invalid" else begin
+      let run fl st = let ((st', o), _) = update_col true true ord ct fl st (z_of_int i) (nat c) (z_of_int v) in (st', o) in
+      let o =
+        if t <> "0" then begin
+          (* the assigner throws: it is the step after all applicable Add steps *)
+          let n = L.length (L.filter (fun u -> has_col u.ucols (nat c)) b.st.uhs) + L.length (L.filter (fun m -> has_col m.mcols (nat c)) b.st.mhs) in
+          let cur = (try Hashtbl.find b.content i with Not_found -> [| 0; 0; 0 |]).(c) in
+          if cur = v then Thrown   (* equal item: the assigner is called at once and throws; nothing changes *)
+          else begin let (st', o) = run (Some (nat n)) b.st in b.st <- st'; o end
+        end else with_faults (f <> "0") b run in
+      (match o with
+       | Accepted -> let a = Array.copy (try Hashtbl.find b.content i with Not_found -> [| 0; 0; 0 |]) in a.(c) <- v; Hashtbl.replace b.content i a
+       | _ -> ());
+      mut (show_outcome o) end
+  | ["FLT"; m; r] ->
+    let m = int_of_string m and r = int_of_string r in
+    b.st <- filter_raws (fun z -> (zi z) mod m <> r) b.st;
+    b.live <- L.filter (fun x -> x mod m <> r) b.live; mut "ok"
+  | "FU" :: j :: vals ->
+    let j = int_of_string j in
+    (match L.nth_opt b.st.uhs j with
+     | Some u when L.length u.ucols = L.length vals ->
+       Stdlib.String.concat " " ("f" :: L.map (fun z -> string_of_int (zi z)) (find_unique ct u (L.map z_of_string vals)))
+     | _ -> "noindex")
+  | "FM" :: j :: vals ->
+    let j = int_of_string j in
+    (match L.nth_opt b.st.mhs j with
+     | Some m when L.length m.mcols = L.length vals ->
+       Stdlib.String.concat " " ("f" :: L.map (fun z -> string_of_int (zi z)) (find_multi ct m (L.map z_of_string vals)))
+     | _ -> "noindex")
+  | ["SEG"; n] ->
+    let n = z_of_string n in
+    let (si, ii) = Gen_Segments.coq_GetSegItemIndexes n in
+    Printf.sprintf "seg %s %s %s" (string_of_z (Gen_Segments.coq_GetItemCount n)) (string_of_z si) (string_of_z ii)
+  | ["DUMP"] -> dump b
+  | _ -> "?"
+
+let run_case (line : string) : string =
+  match Stdlib.String.split_on_char '|' line with
+  | _ :: ops ->
+    let b = { st = empty_istate; content = Hashtbl.create 64; live = [] } in
+    let outs = L.map (fun o -> run_op b o) ops in
+    Stdlib.String.concat "|" (outs @ [dump b])
+  | [] -> ""
